@@ -284,14 +284,53 @@ type c14Chain struct {
 	SetM     int64      `json:"set_m"` // -1: not called; >=0: SetM(value); -2: SetM(2^32+5)
 	UseHash  bool       `json:"use_hash"`
 	Prealloc int        `json:"prealloc"` // k>0: Preallocate(k*37) after every k-th entry
+	Ctor     int        `json:"ctor"`     // which of the With* constructors / Set* key setters starts the chain
 }
 
 func evalC14Chain(c c14Chain, o *Obs) error {
 	var key [16]byte
 	copy(key[:], c.Key)
-	b := builder.WithKeyPM(key, c.P, c.M)
+	// the 32-byte hash whose first 16 bytes are the key (the rest must not matter)
+	var kh chainhash.Hash
+	copy(kh[:], key[:])
+	for i := 16; i < 32; i++ {
+		kh[i] = key[i-16] ^ byte(0xa5+i)
+	}
+	if dk := builder.DeriveKey(&kh); dk != key {
+		return fmt.Errorf("DeriveKey(%x) = %x, want the first 16 bytes", kh[:], dk[:])
+	}
 	wantErr := c.P > 32 || c.M > 0xffffffff
 	p, m := c.P, c.M
+	var b *builder.GCSBuilder
+	o.Class("C14:builder-ctor=%d", c.Ctor)
+	switch c.Ctor {
+	case 0:
+		b = builder.WithKeyPM(key, c.P, c.M)
+	case 1:
+		b = builder.WithKeyPNM(key, c.P, uint32(len(c.Entries)/2), c.M)
+	case 2:
+		b = builder.WithKeyHashPM(&kh, c.P, c.M)
+	case 3:
+		b = builder.WithKeyHashPNM(&kh, c.P, uint32(len(c.Entries)+3), c.M)
+	case 4:
+		b, p, m, wantErr = builder.WithKey(key), 19, 784931, false
+	case 5:
+		b, p, m, wantErr = builder.WithKeyHash(&kh), 19, 784931, false
+	case 6:
+		b = builder.WithRandomKeyPM(c.P, c.M).SetKey(key)
+	case 7:
+		b, p, m, wantErr = builder.WithRandomKey().SetKeyFromHash(&kh), 19, 784931, false
+	case 8:
+		b = builder.WithRandomKeyPNM(c.P, uint32(len(c.Entries)), c.M)
+		if rk, err := b.Key(); err == nil {
+			key = rk // the filter must be the one for the key the builder reports
+		}
+	default:
+		return hbug("ctor")
+	}
+	if k2, err := b.Key(); (err != nil) != wantErr || (err == nil && k2 != key) {
+		return fmt.Errorf("builder constructor %d: Key() = %x, %v; want %x (error expected: %v)", c.Ctor, k2[:], err, key[:], wantErr)
+	}
 	if c.SetP >= 0 {
 		b = b.SetP(uint8(c.SetP))
 		if !wantErr {
@@ -412,7 +451,7 @@ func evalC14Chain(c c14Chain, o *Obs) error {
 var kC14Chain = register(&Kind[c14Chain]{
 	Prop: "C14", Name: "builder",
 	Gen: func(t *rapid.T) c14Chain {
-		c := c14Chain{Key: genBytesN(t, "key", 16), SetP: -1, SetM: -1, UseHash: rapid.Bool().Draw(t, "hash"), Prealloc: rapid.IntRange(0, 4).Draw(t, "prealloc")}
+		c := c14Chain{Key: genBytesN(t, "key", 16), SetP: -1, SetM: -1, UseHash: rapid.Bool().Draw(t, "hash"), Prealloc: rapid.IntRange(0, 4).Draw(t, "prealloc"), Ctor: rapid.IntRange(0, 8).Draw(t, "ctor")}
 		c.P = uint8(rapid.SampledFrom([]int{0, 1, 8, 19, 20, 31, 32, 33, 40, 255}).Draw(t, "p"))
 		c.M = rapid.SampledFrom([]uint64{0, 1, 784931, 1 << 20, 0xffffffff, 1 << 32, 1 << 40}).Draw(t, "m")
 		if c.M > uint64(64)<<c.P && c.P <= 32 { // keep unary runs short
